@@ -69,8 +69,8 @@ RAW = ["$.items[?@.n > ^[0].limit]", "$.items[?^[?@.limit == 2]]", "$[?@.a == ^[
 
 # float literals across the range the model parser accepts (<= 15 significant digits, normalised exponent in [-290, 300]),
 # at its edges, and beyond (outside the model: implementation alone)
-FLOAT_LITS = ["1.23456789012345e-4", "1234567890.12345e20", "0.0e400", "1e300", "1.5e-290", "9.99999999999999e299", "1.0e-289",
-              "0.000000000000000000001", "100.000", "1.50", "1e-7", "123456789012345e-30", "1.0e308", "1e309", "1e-320", "-1.5e-10",
+FLOAT_LITS = ["1.23456789012345e-4", "1234567890.12345e20", "0.0e400", "0e999", "-0e5", "0e0", "1e300", "1.5e-290", "9.99999999999999e299", "1.0e-289",
+              "0.000000000000000000001", "100.000", "1.50", "1e-7", "123456789012345e-30", "1.0e308", "1e309", "1e-320", "-0.0", "-0.000e3", "-1.5e-10",
               "0.1", "0.30000000000000004", "1.0000000000000002", "5e-324", "2.5e+15", "1e15", "1e16", "1.0e16", "123456789012345.0",
               "1234567890123456.0", "0.00001", "0.0001", "1.0E5", "1E+2", "00.5", "1.e5", ".5"]
 RAW_FLOATS = ["$[?@.a == %s]" % x for x in FLOAT_LITS] + ["$[?@.a in [%s, %s]]" % (FLOAT_LITS[0], FLOAT_LITS[1]), "$[?value(@.a) >= %s || @.b < %s]" % (FLOAT_LITS[4], FLOAT_LITS[5])]
